@@ -1,4 +1,5 @@
 from rules import shared as S
+from rules import late as L
 
 DOC = {
     'explanation': 'C08 structural clauses: one door to the backend, check-then-latch in every operation, no dropped storage error (discard allow-list), writes refused after a failure, failed commit discards the allocator, no clean-shutdown record after a failure, drop skips rollback I/O, failed write-back keeps the page, recovery verification covers every table and page (C12 rules shared)',
@@ -27,3 +28,6 @@ def rules(ctx):
     S.extract_state_rules(ctx)
     S.flush_take_rules(ctx)
     S.full_range_rules(ctx)
+    L.verify_cycle_guard_rules(ctx)
+    L.depth_bound_rules(ctx)
+    L.retain_poison_report_rules(ctx)
